@@ -31,7 +31,7 @@ func init() {
 type verifLex struct{ gap, cmt string }
 
 func verifLexStyle() verifLex {
-	verifSepPattern, verifSepCount = verifChoice(3), 0
+	verifSepPattern, verifSepCount, verifIntCount = verifChoice(3), 0, 0
 	return []verifLex{{" ", ""}, {"\t", " // c"}, {"  ", " # c"}, {" ", " /* c */"}}[verifChoice(4)]
 }
 
@@ -42,6 +42,28 @@ var verifSepPattern, verifSepCount int
 func verifSep() string {
 	verifSepCount++
 	return []string{",", ";", ""}[(verifSepPattern+verifSepCount)%3]
+}
+
+// verifInt spells an integer literal. Thrift's IntConstant is ('+' | '-')? Digit+, always decimal: leading
+// zeros and an explicit plus sign are valid. Successive literals of one program cycle through the
+// three spellings (plain, leading zero, plus sign), starting anywhere (tied to the separator pattern).
+var verifIntCount int
+
+func verifInt(n int) string {
+	verifIntCount++
+	s := strconv.Itoa(n)
+	if n < 0 {
+		return s
+	}
+	switch (verifSepPattern + verifIntCount) % 3 {
+	case 1:
+		verifReach("int-leading-zero")
+		return "0" + s
+	case 2:
+		verifReach("int-plus-sign")
+		return "+" + s
+	}
+	return s
 }
 
 // verifRot is a small deterministic variation: item i of a program takes choice (start+i) mod n.
@@ -101,7 +123,7 @@ func verifModText(m FieldModifier) string {
 func verifRenderFields(fs []verifFld, lx verifLex, indent string) string {
 	out := ""
 	for _, f := range fs {
-		out += indent + strconv.Itoa(f.id) + ":" + lx.gap + verifModText(f.mod) + f.ty.text + lx.gap + f.name + verifSep() + lx.cmt + "\n"
+		out += indent + verifInt(f.id) + ":" + lx.gap + verifModText(f.mod) + f.ty.text + lx.gap + f.name + verifSep() + lx.cmt + "\n"
 	}
 	return out
 }
@@ -234,7 +256,7 @@ func VerifC10_Enum() {
 		line := "  " + names[i]
 		if mask&(1<<uint(i)) != 0 {
 			n := []int{0, 1, 5, 40}[verifRot(nstart, i, 4)]
-			line += lx.gap + "=" + lx.gap + strconv.Itoa(n)
+			line += lx.gap + "=" + lx.gap + verifInt(n)
 			want = append(want, n)
 			if n >= next {
 				next = n + 1
@@ -305,7 +327,7 @@ func VerifC10_Service() {
 			if ai > 0 {
 				line += " "
 			}
-			line += strconv.Itoa(a.id) + ": " + verifModText(a.mod) + a.ty.text + " " + a.name + verifSep()
+			line += verifInt(a.id) + ": " + verifModText(a.mod) + a.ty.text + " " + a.name + verifSep()
 		}
 		line += ")"
 		if len(m.throws) > 0 {
@@ -314,7 +336,7 @@ func VerifC10_Service() {
 				if ei > 0 {
 					line += " "
 				}
-				line += strconv.Itoa(e.id) + ": " + e.ty.text + " " + e.name + verifSep()
+				line += verifInt(e.id) + ": " + e.ty.text + " " + e.name + verifSep()
 			}
 			line += ")"
 		}
